@@ -74,7 +74,12 @@ func main() {
 	known := flag.String("known", "/verif/known_findings.txt", "known findings")
 	replay := flag.String("replay", "", "replay a stored case")
 	rounds := flag.Int("rounds", 1, "how many times the generators run, each with a PRNG forked from the seed (thorough tier)")
+	child := flag.Bool("child", false, "child mode: execute request lines from stdin, report allocation (C15 memory clause)")
 	flag.Parse()
+	if *child {
+		childMain()
+		return
+	}
 
 	if *replay != "" {
 		os.Exit(doReplay(*replay, *modelPath))
